@@ -54,11 +54,11 @@ type WorkerOut struct {
 	// descheduled the worker under load); such an execution cannot be replayed and is therefore not reported as a
 	// violation - it is counted and described here.
 	Unreproduced []Unrepro `json:"unreproduced"`
-	Real        []string       `json:"real"`
-	Stub        []string       `json:"stub"`
-	WallS       float64        `json:"wall_s"`
-	Exhaustive  bool           `json:"exhaustive"`
-	ExhaustN    int            `json:"exhaust_n"`
+	Real         []string  `json:"real"`
+	Stub         []string  `json:"stub"`
+	WallS        float64   `json:"wall_s"`
+	Exhaustive   bool      `json:"exhaustive"`
+	ExhaustN     int       `json:"exhaust_n"`
 }
 
 type Sample struct {
